@@ -245,6 +245,10 @@ class DocGen(Gen):
             st = self.rng.choice(styles)
             out.append(doc_attr(text, st))
             self.hit("doc-" + st)
+            if text.strip() and self.rng.random() < 0.15:
+                # the same line once more, directly below (a repeated remark, a table separator)
+                out.append(doc_attr(text, st))
+                self.hit("doc-repeated")
         return out
 
 
@@ -573,6 +577,20 @@ def run(check):
             if ma == ra:
                 check.extra.setdefault("docs_not_reproduced", {}).setdefault(lang, 0)
                 check.extra["docs_not_reproduced"][lang] += 1
+        # a doc line written twice in a row is printed twice wherever it is printed at all
+        if not j["bad"]:
+            alltext = "".join(texts)
+            src_counts = {}
+            for _, d in c["docs"]:
+                for s_ in SENT.findall(d):
+                    src_counts[s_] = src_counts.get(s_, 0) + 1
+            for s_, k in src_counts.items():
+                n_out = len(re.findall(r"%s(?!\d)" % re.escape(s_), alltext))
+                if k >= 2 and 1 <= n_out < k:
+                    check.violation("%s: a doc line that occurs %d times in a row in the source is printed %d time(s) (sentinel %s)"
+                                    % (lang, k, n_out, s_), case={"source": c["src"], "lang": lang, "request": c["r"]}, impl=ra, model=ma,
+                                    failing_input=True)
+                    return
         if len(mask_reqs) < (1200 if check.thorough else 240) and texts and rng.random() < 0.3:
             sty = "pydoc" if lang == "python" else lang
             mask_reqs.append((lang, texts[0], [S("c15-mask"), S(sty), texts[0]]))
@@ -600,7 +618,7 @@ def run(check):
                         case={"source": c["src"], "lang": c["lang"], "request": c["r"]}, impl=ra, model=ma, failing_input=False,
                         broken="correspondence L2 generate_types incl. parse_comment_attrs / write_comments (theorems TsV.C15.C15_exact, "
                                "C15_partial, C15_all_but_scala, C15_parser, C15_render)")
-    if not check.violations:
+    if not check.has_failing():
         on_disk_part(check)
     check.assumptions += [
         "the comment lexers are the comment syntax only (no string / template / raw-string literals for the // family): exact on "
